@@ -13,17 +13,6 @@ def opOf (j : Json) : R BOp :=
   | .arr #[.str "fresh", .str p] => pure (.fresh p)
   | _ => throw s!"bad builder op {j.compress}"
 
-def kindJ : Kind → Json
-  | .assign lhs sub rhs loops => jarr [jstr "assign", jstr lhs, (match sub with | some e => exprJ e | none => .null),
-      exprJ rhs, jarr (loops.map fun (i, lo, hi) => jarr [jstr i, exprJ lo, exprJ hi])]
-  | .callAssign lhs f args kw => jarr [jstr "call", jarr (lhs.map jstr), jstr f, jarr (args.map exprJ),
-      jarr (kw.map fun (k, e) => jarr [jstr k, exprJ e])]
-  | .yield e t tid comp => jarr [jstr "yield", exprJ e, exprJ t, jstr tid, jstr comp]
-  | .raise err => jarr [jstr "raise", jstr err]
-  | .fail => jarr [jstr "fail"]
-  | .switch p => jarr [jstr "switch", jstr p]
-  | .nop => jarr [jstr "nop"]
-
 def insertNat (x : Nat) : List Nat → List Nat
   | [] => [x]
   | y :: ys => if x < y then x :: y :: ys else if x = y then y :: ys else y :: insertNat x ys
